@@ -138,6 +138,10 @@ def mutants(a):
                 q = subprocess.run([os.path.join(VERIF, 'check'), prop, '--tier', 'quick'], env=env, capture_output=True, text=True, timeout=3600)
                 got = q.returncode
                 want = 0 if e.get('equivalent') else 1
+                # a mutant that keeps state in module globals makes runs depend on the worker's history: the check
+                # then reports the violation AND its own determinism alarm (exit 2); that still counts as detected
+                if want == 1 and got == 2 and 'VIOLATION property=' in q.stdout:
+                    got = 1
                 status = 'ok' if got == want else 'UNEXPECTED(exit %d, want %d)' % (got, want)
                 if got != want:
                     rc = 2
